@@ -80,6 +80,22 @@ def generate(rng, tier, seed):
                       "kind": "sample-again", "d": d, "vals": [10, 20, 30]})
         cases.append(dict(meta, scn=hot(["op", "sample", [], ["hot", 0], ["interval", d]], emit + ([] if end else []), sched,
                                         extra_threads=[["u", ["sleep", sum(gaps) + 3 * d + 1], ["unsub", 0]]] if not end else []), kind="sample"))
+        # sample whose consumer fires the trigger again from inside its own callback (feedback): the pending item was handed on
+        # already - it must not come a second time
+        fi = rng.choice([0, 0, 1])
+        fb = [["next", 0, 10], ["next", 1, 9], ["next", 0, 20], ["next", 1, 9], ["next", 1, 9], ["next", 0, 30], ["next", 1, 9]]
+        cases.append({"scn": ["conc", ["objects", ["subject", "subject"], ["subject", "subject"], ["pipe", ["op", "sample", [], ["hot", 0], ["hot", 1]]]],
+                              ["init", ["sub", 0, 0, ["react", fi, ["next", 1, 9]]]], ["threads", ["e"] + fb], ["fini"], ["sched"] + sched],
+                      "kind": "sample", "d": d, "vals": [10, 20, 30]})
+        # delay below a merge of two sources fed by two threads: an item that arrives while another one is being held back is
+        # handed on d after ITS arrival (delay holds each item on the thread that brought it)
+        g0 = rng.choice([1, 2, 3])
+        g1 = g0 + rng.choice([1, 2, d - 1]) if d > 1 else g0 + 1
+        cases.append({"scn": ["conc", ["objects", ["subject", "subject"], ["subject", "subject"],
+                                       ["pipe", ["op", "delay", [d], ["op", "merge", [], ["hot", 0], ["hot", 1]]]]],
+                              ["init", ["sub", 0, 0]], ["threads", ["e0", ["sleep", g0], ["next", 0, 10], ["sleep", 1], ["next", 0, 30]],
+                                                       ["e1", ["sleep", g1], ["next", 1, 20]]], ["fini"], ["sched"] + sched],
+                      "kind": "delay2", "d": d, "end": None})
     return cases
 
 
@@ -116,7 +132,7 @@ def judge_one(case, ob):
     elif kind == "timer":
         if [t for t, _ in items] != [d] or [(t, e[0]) for t, e in terms] != [(d, "c")]:
             bad.append("timer(%d ms) delivered items %s terminals %s" % (case["d"], items, terms))
-    elif kind == "delay":
+    elif kind in ("delay", "delay2"):
         nexts = calls.get("next", [])
         want = [(t + d, int(a[2])) for t, a in nexts]
         if items != want:
